@@ -26,7 +26,9 @@ CHECKS.append({
     "text": "Theorems uf_refines (every size, every in-range history of union/find/connected/count/sizes/components: "
             "the Batteries.UnionFind-based mirror returns what the one-label-per-element reference returns), "
             "qf_count_is_classes, qf_union_classes, fenwick_refines and fenwick_refines_zeros (every initial list, every "
-            "in-range history of update/prefix/range_sum equals the plain array). The Fenwick index expressions are "
+            "in-range history of update/prefix/range_sum equals the plain array), fenwick_updates_eq_rebuild and "
+            "fenwick_history_independent (the internal tree after any update history is the list the constructor builds "
+            "from the updated array; compared with the real _tree on every history). The Fenwick index expressions are "
             "translated from data_structures.py on every run, so the theorems are re-checked against the current source; "
             "random histories are run through the real classes and the models and every return value is compared.",
     "note": "Trusted: Lean kernel + propext/Classical.choice/Quot.sound, the ast-based translator for the index walks, "
